@@ -47,10 +47,35 @@ def drop(path):
 
 # ------------------------------------------------------------- workers ---
 
+_covered = set()
+
+
+def _cover_profile(frame, event, arg):
+    if event == 'call':
+        code = frame.f_code
+        if '/diskcache/' in code.co_filename:
+            _covered.add((os.path.basename(code.co_filename), code.co_name,
+                          code.co_firstlineno))
+
+
+def _cover_dump():
+    d = os.environ.get('VERIF_COVER')
+    if d and _covered:
+        os.makedirs(d, exist_ok=True)
+        with open(os.path.join(d, 'cover-%d.json' % os.getpid()), 'w') as f:
+            json.dump(sorted(_covered), f)
+
+
 def _worker_init():
     from . import env
     env.load()
     scratch()
+    if os.environ.get('VERIF_COVER'):
+        # audit only (tools/api_audit.py): which library functions do the
+        # checks reach at all
+        import threading
+        sys.setprofile(_cover_profile)
+        threading.setprofile(_cover_profile)
 
 
 def _call(packed):
@@ -61,6 +86,7 @@ def _call(packed):
         if os.environ.get('VERIF_DEBUG'):
             sys.stderr.write('UNIT %6.1fs %s\n' % (time.perf_counter() - t,
                                                    repr(unit)[:160]))
+        _cover_dump()
         return ('ok', out)
     except BaseException:
         return ('err', traceback.format_exc())
